@@ -15,7 +15,7 @@ pub fn def() -> PropDef {
         predicate,
         nontrivial,
         functional: false,
-        rule: "all trees over &&, ||, ?: of depth <= 1 and a quarter of depth 2 (quick) / all of depth <= 2 (thorough) over the operand kinds (true, false, division by zero, overflow, missing key, undeclared variable, call of an unregistered function in global and receiver style, failing host function, call-logging host functions returning true/false), random trees to depth 4, each also wrapped as the body of map/filter/all/exists macros; the predicate re-evaluates the tree with an independent reference interpreter of the short-circuit rules and requires the same outcome and the same ordered call log; non-trivial = at least one operand is skipped by the rules; distinct = distinct source text",
+        rule: "all trees over &&, ||, ?: of depth <= 1 and a quarter of depth 2 (quick) / all of depth <= 2 (thorough) over the operand kinds (true, false, division by zero, overflow, missing key, undeclared variable, call of an unregistered function in global and receiver style, failing host function, call-logging host functions returning true/false), random trees to depth 4, chains of length 2-3 whose terms all compare the same operand with literals, failing and logging expressions, each also wrapped as the body of map/filter/all/exists macros; the predicate re-evaluates the tree with an independent reference interpreter of the short-circuit rules and requires the same outcome and the same ordered call log; non-trivial = at least one operand is skipped by the rules; distinct = distinct source text",
         post: super::no_post,
         exhaustive_note: "depth <= 1 enumeration is complete in the quick tier (depth 2 over every 4th subtree); depth <= 2 is complete in the thorough tier",
     }
@@ -106,6 +106,9 @@ pub fn ctx_spec() -> CtxSpec {
     spec.fns.push(("lf".into(), FnSpec::Host(vec!["pos-int".into()], Body::Const(Value::Bool(false)))));
     spec.fns.push(("fail".into(), FnSpec::Host(vec!["pos-int".into()], Body::Fail)));
     spec.vars.push(("m".into(), Value::Map(Map { map: Arc::new(HashMap::new()) })));
+    spec.vars.push(("x".into(), Value::Int(1)));
+    spec.fns.push(("one".into(), FnSpec::Host(vec!["pos-int".into()], Body::Const(Value::Int(1)))));
+    spec.fns.push(("two".into(), FnSpec::Host(vec!["pos-int".into()], Body::Const(Value::Int(2)))));
     spec
 }
 
@@ -236,6 +239,80 @@ pub fn generate(tier: Tier, rng: &mut Rng) -> Vec<Case> {
             c.payload = format!("{}", c.payload);
             EXPECT.with(|e| e.borrow_mut().insert(c.key(), want));
             out.push(c);
+        }
+    }
+    // chains whose terms all compare one operand with something (the shape an "x == a || x == b
+    // → x in [a, b]" rewrite looks for): later terms stay unevaluated once the chain is decided;
+    // the model, which has no such rewrite, decides
+    // (source, outcome, log entry): x is 1
+    let terms: [(&str, Result<bool, &str>, &str); 12] = [
+        ("x == 1", Ok(true), ""),
+        ("x == 2", Ok(false), ""),
+        ("x == 1 / 0", Err("div0"), ""),
+        ("x == zz", Err("undeclared x7a7a"), ""),
+        ("x == m.missing", Err("nosuchkey"), ""),
+        ("1 == x", Ok(true), ""),
+        ("x == one(1)", Ok(true), "(x6f6e65 (int 1))"),
+        ("x == two(2)", Ok(false), "(x74776f (int 2))"),
+        ("x == two(9)", Ok(false), "(x74776f (int 9))"),
+        ("x == fail(3)", Err("function-error"), "(x6661696c (int 3))"),
+        ("x != 1", Ok(false), ""),
+        ("x != 1 / 0", Err("div0"), ""),
+    ];
+    // reference: left to right, the first error aborts, `||` stops at the first true, `&&` at the first false
+    let chain = |ts: &[usize], is_or: bool, log: &mut Vec<String>| -> Result<bool, String> {
+        for &t in ts {
+            let (_, outcome, entry) = terms[t];
+            if !entry.is_empty() {
+                log.push(entry.to_string());
+            }
+            match outcome {
+                Err(e) => return Err(e.to_string()),
+                Ok(v) if v == is_or => return Ok(is_or),
+                Ok(_) => {}
+            }
+        }
+        Ok(!is_or)
+    };
+    let fmt = |r: &Result<bool, String>, log: &[String]| -> String {
+        let l = if log.is_empty() { "(log)".to_string() } else { format!("(log {})", log.join(" ")) };
+        match r {
+            Ok(v) => format!("(res (ok (bool {})) {l})", *v as u8),
+            Err(e) => format!("(res (err {e}) {l})"),
+        }
+    };
+    for (op, is_or) in [("||", true), ("&&", false)] {
+        for a in 0..terms.len() {
+            for b in 0..terms.len() {
+                let mut combos: Vec<Vec<usize>> = vec![vec![a, b]];
+                for c in [2usize, 8, 0] {
+                    combos.push(vec![a, b, c]);
+                }
+                for ts in combos {
+                    let text = ts.iter().map(|t| terms[*t].0).collect::<Vec<_>>().join(&format!(" {op} "));
+                    // plain, inside a conditional under &&, and as the body of `all` over [1, 1]
+                    let mut log = vec![];
+                    let r = chain(&ts, is_or, &mut log);
+                    let want_plain = fmt(&r, &log);
+                    let mut log2 = vec![];
+                    let mut r2: Result<bool, String> = Ok(true);
+                    for _ in 0..2 {
+                        r2 = chain(&ts, is_or, &mut log2);
+                        if r2 != Ok(true) {
+                            break;
+                        }
+                    }
+                    let want_all = fmt(&r2, &log2);
+                    for (src, want) in [(text.clone(), want_plain.clone()), (format!("true && (false ? false : ({text}))"), want_plain.clone()), (format!("[1, 1].all(x, {text})"), want_all)] {
+                        if let Some(mut c) = eval_case_from_src(&spec, &src) {
+                            c.tags = vec!["equality-chain", "skips"];
+                            c.src = Some(src);
+                            EXPECT.with(|e| e.borrow_mut().insert(c.key(), want));
+                            out.push(c);
+                        }
+                    }
+                }
+            }
         }
     }
     out
